@@ -539,13 +539,14 @@ class columns_render:
         if X(m) == 0:
             yield "nothing-visible-a-blank-canvas", both(r.nrows == (a.size[1] if len(a.size) == 2 else 1), mk_bool(r.cursor.isnone))
             return
-        yield "height-is-the-tallest-column-drawn", r.nrows == R(m)
         if len(a.size) == 1:
             # C01: flow sizing yields exactly the rows the widget's own rows() reports, and Columns.rows() is
             # max(1, tallest column) (columns_rows: at-least-one-row / no-child-needs-more / the-tallest-child-or-one).
-            # FAILS-ON-TREE: Columns([BoxAdapter(SolidFill('x'), 0)]): rows((5,)) == 1 but render((5,)).rows() == 0
-            # (every visible column draws 0 rows; recorded as bounded known finding C08-KF4)
+            # failed before fix: commit de488a0: Columns([BoxAdapter(SolidFill('x'), 0)]): rows((5,)) == 1 but
+            # render((5,)).rows() == 0 (every visible column drew 0 rows; was bounded known finding C08-KF4)
             yield "flow-height-is-what-rows()-reports", r.nrows == imax(1, R(m))
+        else:
+            yield "height-is-the-tallest-column-drawn", r.nrows == R(m)
         r_unfold(old, geo, a.focus, J)
         yield "no-column-is-cut-short", implies(both(0 <= J, J < m, Q.seq_get(widths, J) > 0), r.nrows >= drawn_rows(old, geo, J, a.focus))
         shown, cx, cy = _focus_cursor(old, geo, a.focus, m)
